@@ -269,9 +269,32 @@ def lookup_helpers(fs):
     _HELPERS[key] = out
     return out
 
+def projecting_map(body, call):
+    """`opt.map(|(ix, _)| ix)`-like call: the closure has no calls of its own and returns a part of its argument"""
+    if not call.is_(r'Option::<.*>::map$') or len(call.args) < 2 or body.facts is None:
+        return False
+    for r in provenance(body, call.args[1], call.bb, 'term', through=None):
+        if r.kind == 'agg' and r.extra.get('closure') in body.facts.bodies:
+            clo = body.facts.bodies[r.extra['closure']]
+            if clo.calls():
+                return False
+            rets = [q for rb in clo.return_blocks() for q in provenance(clo, ['cp', [0, []]], rb, 'term', through=None)]
+            return bool(rets) and all(q.kind == 'param' for q in rets)
+    return False
+
 def index_sources(body, op, bb, idx):
     """classify the provenance of an index operand"""
     rs = provenance(body, op, bb, idx, through=None)
+    # look through projections of the found pair: find(..).map(|(ix, _)| ix)
+    for _ in range(3):
+        nxt = []; changed = False
+        for r in rs:
+            if r.kind == 'call' and projecting_map(body, r.call):
+                nxt += provenance(body, r.call.args[0], r.call.bb, 'term', through=None); changed = True
+            else:
+                nxt.append(r)
+        rs = nxt
+        if not changed: break
     kinds = set()
     helpers = lookup_helpers(body.facts) if body.facts is not None else {}
     for r in rs:
@@ -281,6 +304,7 @@ def index_sources(body, op, bb, idx):
             kinds.add('iter')
         elif r.kind == 'bin' and r.extra['op'].startswith('Add') and (op_const(r.extra['b']) or {}).get('v') == 1:
             inner = provenance(body, r.extra['a'], r.site[0], r.site[1], through=None)
+            inner = [z for q in inner for z in (provenance(body, q.call.args[0], q.call.bb, 'term', through=None) if (q.kind == 'call' and projecting_map(body, q.call)) else [q])]
             if inner and all(x.kind == 'call' and (x.call.is_(r'Iterator>?::(find|find_map|next)\b') or any(n in helpers for n in x.call.names)) for x in inner):
                 kinds.add('iter+1')
             else:
